@@ -115,37 +115,86 @@ def _strip(stmts: list[ast.stmt]) -> list[ast.stmt]:
     return out
 
 
+_PURE_CALLS = {'len', 'list', 'set', 'dict', 'tuple', 'sorted', 'sum', 'min', 'max', 'int', 'float', 'str', 'bool', 'abs'}
+
+
+def _pure(e: ast.AST) -> bool:
+    for n in ast.walk(e):
+        if isinstance(n, ast.Call) and not (isinstance(n.func, ast.Name) and n.func.id in _PURE_CALLS):
+            return False
+        if isinstance(n, (ast.Yield, ast.YieldFrom, ast.Await, ast.NamedExpr, ast.Lambda)):
+            return False
+    return True
+
+
+def _independent(a: ast.stmt, b: ast.stmt) -> bool:
+    """two plain assignments to different locals with pure right-hand sides, neither reading the other's target:
+    their order is not behaviour"""
+    for st in (a, b):
+        if not (isinstance(st, ast.Assign) and len(st.targets) == 1 and isinstance(st.targets[0], ast.Name) and _pure(st.value)):
+            return False
+    ta, tb = a.targets[0].id, b.targets[0].id
+    ra = {n.id for n in ast.walk(a.value) if isinstance(n, ast.Name)}
+    rb = {n.id for n in ast.walk(b.value) if isinstance(n, ast.Name)}
+    return ta != tb and ta not in rb and tb not in ra
+
+
+def _runs(ns: list[ast.stmt]) -> list[int]:
+    """run id per statement: maximal groups of consecutive, mutually independent plain assignments share an id"""
+    ids = []
+    cur = 0
+    start = 0
+    for k, st in enumerate(ns):
+        if k > start and all(_independent(ns[m], st) for m in range(start, k)):
+            ids.append(cur)
+            continue
+        if k > 0:
+            cur += 1
+        start = k
+        ids.append(cur)
+    return ids
+
+
 def m_stmts(ps: list[ast.stmt], ns: list[ast.stmt], b: dict, anchored: bool = False) -> bool:
-    """pattern statements ps match ns; `___` matches any run.  anchored: ps must cover all of ns (modulo gaps)"""
+    """pattern statements ps match ns; `___` matches any run.  anchored: ps must cover all of ns (modulo gaps).
+    Within a group of consecutive, mutually independent plain assignments of the code (different locals, pure
+    right-hand sides, none reading another's target) the order is free: it is not behaviour."""
     ps = _strip(ps)
     ns = _strip(ns)
+    run = _runs(ns)
 
-    def rec(i, j, bb):
+    def match_one(p, n, b2) -> bool:
+        # an AnnAssign in the code matches an Assign in the pattern (annotations are not behaviour)
+        if isinstance(p, ast.Assign) and isinstance(n, ast.AnnAssign) and n.value is not None and len(p.targets) == 1:
+            return m_node(p.targets[0], n.target, b2) and m_node(p.value, n.value, b2)
+        return m_node(p, n, b2)
+
+    def rec(i, j, used, bb):
+        while j in used:
+            j += 1
         if i == len(ps):
             if anchored and j != len(ns):
                 return None
             return bb
         if _is_gap(ps[i]):
-            for k in range(j, len(ns) + 1):
-                r = rec(i + 1, k, dict(bb))
-                if r is not None:
-                    return r
+            r = rec(i + 1, j, used, dict(bb))
+            if r is not None:
+                return r
+            if j < len(ns):
+                return rec(i, j + 1, used, bb)
             return None
         if j >= len(ns):
             return None
-        b2 = dict(bb)
-        # an AnnAssign in the code matches an Assign in the pattern (annotations are not behaviour)
-        n = ns[j]
-        p = ps[i]
-        if isinstance(p, ast.Assign) and isinstance(n, ast.AnnAssign) and n.value is not None and len(p.targets) == 1:
-            ok = m_node(p.targets[0], n.target, b2) and m_node(p.value, n.value, b2)
-        else:
-            ok = m_node(p, n, b2)
-        if ok:
-            return rec(i + 1, j + 1, b2)
+        cands = [j] + [k for k in range(j + 1, len(ns)) if run[k] == run[j] and k not in used]
+        for k in cands:
+            b2 = dict(bb)
+            if match_one(ps[i], ns[k], b2):
+                r = rec(i + 1, j + 1, used, b2) if k == j else rec(i + 1, j, used | {k}, b2)
+                if r is not None:
+                    return r
         return None
 
-    r = rec(0, 0, dict(b))
+    r = rec(0, 0, frozenset(), dict(b))
     if r is None:
         return False
     b.clear()
